@@ -657,7 +657,7 @@ func (ex *Exec) selectIndex(fr *frame, st *State, ins ssa.Instruction, idx *term
 	if !ex.guardOK(fr, st, inb, ins, fmt.Sprintf("index out of range [symbolic] with length %d", n)) {
 		return nil, false
 	}
-	r := factsOf(st.G).rangeOf(idx)
+	r := st.facts().rangeOf(idx)
 	lo, hi := int(r.lo), n-1
 	if r.hi < uint64(hi) {
 		hi = int(r.hi)
@@ -717,7 +717,7 @@ func (ex *Exec) indexAddr(fr *frame, st *State, x *ssa.IndexAddr) []*State {
 	var out []*State
 	for i := 0; i < n; i++ {
 		c := term.Eq(idx, term.Const(idx.W(), uint64(i)))
-		if !ex.feasibleWith(st.G, c, false) {
+		if !ex.feasibleSt(st, c, false) {
 			continue
 		}
 		s := st.fork(c)
